@@ -28,7 +28,9 @@ DETERMINISTIC_RUN = True
 # interpreter take 200 ms each against 14 ms alone), so procsim throughput is ~0.6 runs/s however many lanes run.
 TIERS = {"quick": {"runs": 96, "timeout": 1800, "lane_timeout": 1200, "procs": 8},
          "thorough": {"runs": 1600, "timeout": 14400, "lane_timeout": 7200, "procs": 8}}
-SERVER_SEEDS = [11, 22, 33]
+# 0 = hash randomisation switched off (sys.flags.hash_randomization == 0): a configuration of its own,
+# code may (wrongly) treat hashes as stable across processes there (seeded change C14-b)
+SERVER_SEEDS = [0, 11, 22, 33]
 MODULE = "vgen"
 NSNAME = "vgen"
 _st = {"servers": {}, "n": 0, "exc_classes": {}, "cut_points": 0, "cut_files": 0}
@@ -103,7 +105,7 @@ DAMAGES = ["truncate", "truncate", "truncate", "empty", "magic", "mtime+1", "mti
 
 def gen(rng, tier, index):
     desc = ns_gen.generate(rng, NSNAME, rng.choice([1, 3, 6, 10, 15, 22, 30]))
-    hist = [["write", 0, 0, 0], ["load", rng.randrange(3), None]]
+    hist = [["write", 0, 0, 0], ["load", rng.randrange(len(SERVER_SEEDS)), None]]
     version = 0
     pad = 0
     for _ in range(rng.choice([2, 3, 4, 5, 6])):
@@ -121,12 +123,12 @@ def gen(rng, tier, index):
         elif r < 0.55:
             hist.append(["damage", rng.choice(DAMAGES), rng.random()])
         elif r < 0.72:
-            hist.append(["load", rng.randrange(3), [rng.choice(["exit", "exit", "oserror"]), rng.random()]])
+            hist.append(["load", rng.randrange(len(SERVER_SEEDS)), [rng.choice(["exit", "exit", "oserror"]), rng.random()]])
         else:
-            hist.append(["load", rng.randrange(3), None])
-    hist.append(["load", rng.randrange(3), None])
+            hist.append(["load", rng.randrange(len(SERVER_SEEDS)), None])
+    hist.append(["load", rng.randrange(len(SERVER_SEEDS)), None])
     if rng.random() < 0.5:
-        hist.append(["load", rng.randrange(3), None])
+        hist.append(["load", rng.randrange(len(SERVER_SEEDS)), None])
     return {"desc": desc, "history": hist}
 
 
@@ -155,7 +157,7 @@ def describe():
         "rule": "history = write source v0; load; then 2-6 ops from {edit source (mtime and/or size change, clock jumping "
                 "back), damage cache (truncate anywhere, empty, header only, magic, mtime+-1, size+-1, delete), load with a "
                 "crash (power loss or OSError after k bytes of the cache write), clean load}, each load in a real interpreter "
-                "incarnation under one of 3 PYTHONHASHSEED values; generated namespaces of 1-30 units (literals of every "
+                "incarnation under one of 4 PYTHONHASHSEED values (0 = randomisation off, 11, 22, 33); generated namespaces of 1-30 units (literals of every "
                 "kind, defn/closures/multi-arity, defmacro, defrecord/deftype/defprotocol, defmulti, dynamic/private Vars, "
                 "required alias, keyword identity probes). Every cache file produced is additionally cut at EVERY proper "
                 "prefix length through the real header/unmarshal function. Non-trivial = at least one load met an invalid "
@@ -452,7 +454,7 @@ def _bundled_cross_seed():
     """Compile all bundled namespaces from source under seed A into a fresh prefix; load them from that
     prefix under seed B; compile from source under B into another fresh prefix; compare public Vars."""
     viol = []
-    pairs = [(101, 202), (202, 101)]
+    pairs = [(101, 202), (202, 0), (0, 101)]
     res = {}
     base = os.path.join(B.CACHE, "run", f"c14-bundled-{os.getpid()}")
     shutil.rmtree(base, ignore_errors=True)
